@@ -103,6 +103,9 @@ func rawList(c *ev.Case, o *rawOpts, depth int, classes *[]string) []byte {
 				continue
 			}
 			l := []int{65527, 65528, 65529, 65556, 70001, 131072, 196608}[r.IntN(7)]
+			if r.IntN(8) == 0 { // declared lengths that need more than 20 bits
+				l = []int{1<<20 - 8, 1 << 20, 1<<20 + 1, 3<<20 + 5}[r.IntN(4)]
+			}
 			payload = fillerImage(c, l)
 			cls = fmt.Sprintf("%s/big=%d", k, l)
 		case x < 4: // fixed-width type with a payload of every length 0..20
